@@ -30,17 +30,57 @@ func runC09(c *eng.Ctx, tier string) {
 	if m == nil || m.Version == nil {
 		c.Undecided("R-C09-1", nil, 0, "db.(*DB).GetConditional", "anchor does not resolve")
 	} else {
-		// the active read
-		var read *ssa.Call
-		for _, s := range d.sites(m.Fn) {
-			if s.Call != nil && !s.Write {
-				if call, ok := s.In.(*ssa.Call); ok {
-					read = call
+		eng.SetRoot(m.Fn)
+		defer eng.SetRoot(nil)
+		// the function that compares and answers: GetConditional itself, or a
+		// helper it hands (name, oldVersion) to
+		g := m.Fn
+		eng.InstrsDeep(m.Fn, func(f *ssa.Function, in ssa.Instruction) {
+			if r, ok := in.(*ssa.Return); ok && f != m.Fn {
+				rv := eng.RetVals(r)
+				if ei := errResultIndex(f); ei >= 0 && eng.IsGlobalLoad(rv[ei], "types/api", "ErrValueNotChanged") {
+					g = f
 				}
 			}
+		})
+		var hcall *ssa.Call
+		if g != m.Fn {
+			hcall, _ = eng.ContextCallSite(g).(*ssa.Call)
+			if hcall == nil || hcall.Parent() != m.Fn {
+				c.Undecided("R-C09-1", m.Fn, m.Fn.Pos(), "compare-and-answer helper "+eng.FName(g), "not called from GetConditional at exactly one place")
+				g = nil
+			}
 		}
-		if read == nil {
-			c.Undecided("R-C09-1", m.Fn, m.Fn.Pos(), "active read in GetConditional", "not found")
+		// the active read: a call in g returning *api.SecretValue whose callee looks up Versions[ActiveVersion]
+		readsActive := func(cal *ssa.Function) bool {
+			okA := false
+			if cal != nil {
+				eng.InstrsDeep(cal, func(_ *ssa.Function, in ssa.Instruction) {
+					if lk, ok := in.(*ssa.Lookup); ok {
+						if fr, _, isF := eng.LoadedField(lk.X); isF && fr.Is("db", "secret", "Versions") {
+							if fr2, _, isF2 := eng.LoadedField(lk.Index); isF2 && fr2.Is("db", "secret", "ActiveVersion") {
+								okA = true
+							}
+						}
+					}
+				})
+			}
+			return okA
+		}
+		var read *ssa.Call
+		if g != nil {
+			eng.Instrs(g, func(in ssa.Instruction) {
+				if call, ok := in.(*ssa.Call); ok {
+					res := call.Call.Signature().Results()
+					if res.Len() == 2 && eng.IsNamed(res.At(0).Type(), "types/api", "SecretValue") && readsActive(eng.Callee(&call.Call)) && eng.Callee(&call.Call) != g {
+						read = call
+					}
+				}
+			})
+		}
+		if g == nil {
+		} else if read == nil {
+			c.Undecided("R-C09-1", g, g.Pos(), "active read in GetConditional", "not found")
 		} else {
 			var val ssa.Value
 			for _, r := range *read.Referrers() {
@@ -55,14 +95,14 @@ func runC09(c *eng.Ctx, tier string) {
 				}
 				for _, pr := range [][2]ssa.Value{{x, y}, {y, x}} {
 					fr, base, isF := eng.LoadedField(pr[0])
-					if isF && fr.Is("types/api", "SecretValue", "Version") && eng.Origin(base) == val && eng.Origin(pr[1]) == ssa.Value(m.Version) {
+					if isF && fr.Is("types/api", "SecretValue", "Version") && eng.Origin(base) == val && eng.OriginX(pr[1]) == eng.OriginX(m.Version) {
 						return true
 					}
 				}
 				return false
 			}
 			nNC := 0
-			for _, r := range eng.Returns(m.Fn) {
+			for _, r := range eng.Returns(g) {
 				rv := eng.RetVals(r)
 				if eng.IsGlobalLoad(rv[1], "types/api", "ErrValueNotChanged") {
 					nNC++
@@ -72,7 +112,7 @@ func runC09(c *eng.Ctx, tier string) {
 							okk = true
 						}
 					}
-					c.Check(okk && eng.IsNilConst(eng.Origin(rv[0])), "R-C09-1", m.Fn, r.Pos(), eng.InstrStr(r), "not-modified is answered exactly on the true edge of (active value).Version == oldVersion, with no value", "holding: "+eng.FactsString(r))
+					c.Check(okk && eng.IsNilConst(eng.Origin(rv[0])), "R-C09-1", g, r.Pos(), eng.InstrStr(r), "not-modified is answered exactly on the true edge of (active value).Version == oldVersion, with no value", "holding: "+eng.FactsString(r))
 				}
 				if !eng.IsNilConst(eng.Origin(rv[0])) {
 					okk := false
@@ -81,25 +121,50 @@ func runC09(c *eng.Ctx, tier string) {
 							okk = true
 						}
 					}
-					c.Check(okk && eng.Origin(rv[0]) == val, "R-C09-1", m.Fn, r.Pos(), eng.InstrStr(r), "otherwise the value returned is the very result of the active read, on the != edge of that comparison", "returns "+eng.ValStr(rv[0])+"; holding: "+eng.FactsString(r))
+					c.Check(okk && eng.Origin(rv[0]) == val, "R-C09-1", g, r.Pos(), eng.InstrStr(r), "otherwise the value returned is the very result of the active read, on the != edge of that comparison", "returns "+eng.ValStr(rv[0])+"; holding: "+eng.FactsString(r))
 				}
 			}
-			c.Check(nNC == 1, "R-C09-1", m.Fn, m.Fn.Pos(), "returns of ErrValueNotChanged in GetConditional", "exactly one", itoa(nNC))
-			// the read is the ACTIVE read: its callee's SecretValue literal uses ActiveVersion as key
-			cal := eng.Callee(&read.Call)
-			okActive := false
-			if cal != nil {
-				eng.Instrs(cal, func(in ssa.Instruction) {
-					if lk, ok := in.(*ssa.Lookup); ok {
-						if fr, _, isF := eng.LoadedField(lk.X); isF && fr.Is("db", "secret", "Versions") {
-							if fr2, _, isF2 := eng.LoadedField(lk.Index); isF2 && fr2.Is("db", "secret", "ActiveVersion") {
-								okActive = true
+			c.Check(nNC == 1, "R-C09-1", g, g.Pos(), "returns of ErrValueNotChanged in GetConditional", "exactly one", itoa(nNC))
+			// the name read is the operation's own
+			nameOK := false
+			for _, a := range read.Call.Args {
+				if isStringType(a.Type()) && eng.OriginX(a) == eng.OriginX(m.NameP) {
+					nameOK = true
+				}
+			}
+			c.Check(nameOK, "R-C09-2", g, read.Pos(), eng.CallStr(&read.Call), "the read compared with oldVersion is the read of the ACTIVE version of that name", "")
+			// GetConditional hands the helper's answer on unchanged
+			if hcall != nil {
+				herr := saveErr(hcall)
+				for _, r := range eng.Returns(m.Fn) {
+					rv := eng.RetVals(r)
+					if !eng.IsNilConst(eng.Origin(rv[0])) {
+						hc, idx := eng.TupleCall(rv[0])
+						okk := hc == hcall && idx == 0
+						dom := false
+						for _, cond := range eng.FactsAt(r) {
+							if v, isNil, isE := cond.ErrCheck(); isE && isNil && eng.Same(v, herr) {
+								dom = true
 							}
 						}
+						c.Check(okk && dom, "R-C09-1", m.Fn, r.Pos(), eng.InstrStr(r), "the value returned is the helper's answer, on the nil edge of its error", "returns "+eng.ValStr(rv[0]))
 					}
+				}
+				hit, path := eng.Search(m.Fn, hcall, eng.AssumeErr(herr, false), nil, func(x ssa.Instruction) bool {
+					r, isR := x.(*ssa.Return)
+					if !isR {
+						return false
+					}
+					rv := eng.RetVals(r)
+					return !(eng.Same(rv[1], herr) && eng.IsNilConst(eng.Origin(rv[0])))
 				})
+				c.Check(hit == nil, "R-C09-1", m.Fn, hcall.Pos(), "error of "+eng.CallStr(&hcall.Call), "handed on unchanged with no value (the not-modified sentinel keeps its identity)", func() string {
+					if hit == nil {
+						return ""
+					}
+					return "another answer is possible: " + c.P.PathStr(path)
+				}())
 			}
-			c.Check(okActive && len(read.Call.Args) == 2 && eng.Origin(read.Call.Args[1]) == ssa.Value(m.NameP), "R-C09-2", m.Fn, read.Pos(), eng.CallStr(&read.Call), "the read compared with oldVersion is the read of the ACTIVE version of that name", "")
 		}
 	}
 	kvPairing(c, "R-C09-2")
